@@ -7,54 +7,27 @@ Import ListNotations.
 Local Open Scope N_scope.
 Ltac Zify.zify_post_hook ::= Z.div_mod_to_equations.
 
-(* ---------- finding 0: needle key 0 ---------- *)
-Lemma format_key0 : forall cookie, format_key_cookie 0 cookie = hex_of_bytes (be_encode 4 cookie).
+(* ---------- needle key 0 (former finding 0, repaired in the working tree) ---------- *)
+(* formatNeedleIdCookie now keeps one key byte: key 0 prints as "00" followed by the cookie *)
+Lemma format_key0 : forall cookie, format_key_cookie 0 cookie = [48; 48] ++ hex_of_bytes (be_encode 4 cookie).
 Proof. intros. rewrite format_key_cookie_split. reflexivity. Qed.
 
-Lemma len_format_key0 : forall cookie, len (format_key_cookie 0 cookie) = 8.
-Proof. intros. rewrite format_key0, len_hex_of_bytes, len_be_encode. reflexivity. Qed.
+Lemma len_format_key0 : forall cookie, len (format_key_cookie 0 cookie) = 10.
+Proof. intros. rewrite format_key0, len_app, len_hex_of_bytes, len_be_encode. reflexivity. Qed.
 
-Lemma parse_key_cookie_key0 : forall cookie, parse_key_cookie (format_key_cookie 0 cookie) = None.
-Proof. intros. unfold parse_key_cookie. rewrite len_format_key0. reflexivity. Qed.
+(* the string of a file id with key 0 parses back to it, whatever the volume and cookie *)
+Lemma file_id_key0 : forall vid cookie, vid < 2 ^ 32 -> cookie < 2 ^ 32 ->
+  parse_file_id (fid_string vid 0 cookie) = Some (vid, 0, cookie).
+Proof. intros vid cookie Hv Hc. apply file_id_roundtrip; try assumption. reflexivity. Qed.
 
-(* the string of a file id with key 0 is rejected, whatever the volume and cookie *)
-Lemma file_id_key0 : forall vid cookie, parse_file_id (fid_string vid 0 cookie) = None.
+Lemma parse_path_key0 : forall cookie, cookie < 2 ^ 32 -> parse_path (format_key_cookie 0 cookie) = Some (0, cookie).
+Proof. intros cookie Hc. apply parse_path_plain; [reflexivity|assumption]. Qed.
+
+(* the printed key part is never empty and never longer than 16 digits: 10..24 characters in all *)
+Lemma len_format_range : forall key cookie, 10 <= len (format_key_cookie key cookie) <= 24.
 Proof.
-  intros vid cookie. unfold parse_file_id, fid_string, vid_string.
-  cbn [app]. rewrite index_of_app by (apply itoa_not_in; reflexivity).
-  destruct (itoa_spec vid) as [Hne _].
-  assert (Hl : len (itoa vid) <> 0) by (intro E; apply Hne, len_zero_nil, E).
-  destruct (0 + len (itoa vid) =? 0) eqn:E; [lia|].
-  replace (0 + len (itoa vid)) with (len (itoa vid)) by lia.
-  change (itoa vid ++ 44 :: format_key_cookie 0 cookie) with (itoa vid ++ [44] ++ format_key_cookie 0 cookie).
-  rewrite (app_assoc (itoa vid)), dropN_app by (rewrite len_app; reflexivity).
-  rewrite parse_key_cookie_key0.
-  destruct (new_volume_id _); reflexivity.
-Qed.
-
-Lemma file_id_roundtrip_iff : forall vid key cookie, vid < 2 ^ 32 -> key < 2 ^ 64 -> cookie < 2 ^ 32 ->
-  (parse_file_id (fid_string vid key cookie) = Some (vid, key, cookie) <-> trig_key0 key = false).
-Proof.
-  intros vid key cookie Hv Hk Hc. unfold trig_key0. split; intro H.
-  - destruct (key =? 0) eqn:E; [|reflexivity].
-    assert (key = 0) by lia. subst key. rewrite file_id_key0 in H. discriminate.
-  - apply file_id_roundtrip; try assumption. lia.
-Qed.
-
-Lemma file_id_refuted : exists vid key cookie, vid < 2 ^ 32 /\ key < 2 ^ 64 /\ cookie < 2 ^ 32 /\
-  parse_file_id (fid_string vid key cookie) <> Some (vid, key, cookie).
-Proof. exists 3, 0, 1668298710. repeat split; try reflexivity. rewrite file_id_key0. discriminate. Qed.
-
-Lemma parse_path_key0 : forall cookie, parse_path (format_key_cookie 0 cookie) = None.
-Proof. intros. unfold parse_path. rewrite len_format_key0. reflexivity. Qed.
-
-Lemma parse_path_roundtrip_iff : forall key cookie, key < 2 ^ 64 -> cookie < 2 ^ 32 ->
-  (parse_path (format_key_cookie key cookie) = Some (key, cookie) <-> trig_key0 key = false).
-Proof.
-  intros key cookie Hk Hc. unfold trig_key0. split; intro H.
-  - destruct (key =? 0) eqn:E; [|reflexivity].
-    assert (key = 0) by lia. subst key. rewrite parse_path_key0 in H. discriminate.
-  - apply parse_path_plain; try assumption. lia.
+  intros key cookie. rewrite format_key_cookie_split, len_app, !len_hex_of_bytes, len_be_encode.
+  pose proof (key_part_len key). lia.
 Qed.
 
 (* ---------- what ParseFileIdFromString accepts ---------- *)
@@ -279,10 +252,11 @@ Lemma example_ok :
 Proof. vm_compute. repeat split; reflexivity. Qed.
 
 Lemma example_more :
-  fid_string 3 0 1668298710 = [51; 44; 54; 51; 55; 48; 51; 55; 100; 54]          (* "3,637037d6": no key digits *)
-  /\ parse_file_id [51; 44; 54; 51; 55; 48; 51; 55; 100; 54] = None
-  /\ parse_file_id [51; 44; 48; 48; 54; 51; 55; 48; 51; 55; 100; 54] = Some (3, 0, 1668298710)   (* "3,00637037d6" *)
-  /\ trig_key0 0 = true /\ trig_key0 1 = false
+  fid_string 3 0 1668298710 = [51; 44; 48; 48; 54; 51; 55; 48; 51; 55; 100; 54]   (* "3,00637037d6": key 0 keeps one key byte (repaired) *)
+  /\ parse_file_id [51; 44; 48; 48; 54; 51; 55; 48; 51; 55; 100; 54] = Some (3, 0, 1668298710)
+  /\ parse_file_id [51; 44; 54; 51; 55; 48; 51; 55; 100; 54] = None                   (* "3,637037d6", what the unrepaired code printed *)
+  /\ format_key_cookie 0 0 = [48; 48; 48; 48; 48; 48; 48; 48; 48; 48]
+  /\ parse_path [48; 48; 48; 48; 48; 48; 48; 48; 48; 48] = Some (0, 0)
   /\ parse_path [48; 49; 54; 51; 55; 48; 51; 55; 100; 54; 95; 50] = Some (3, 1668298710)       (* "01637037d6_2" *)
   /\ parse_path [48; 49; 54; 51; 55; 48; 51; 55; 100; 54; 95] = Some (1, 1668298710)           (* "01637037d6_" *)
   /\ parse_path [48; 49; 54; 51; 55; 48; 51; 55; 100; 54; 95; 43; 49] = None                   (* "01637037d6_+1" *)
